@@ -57,7 +57,7 @@ Inl(on, c, s)    == [k |-> "i", on |-> on, cond |-> c, sels |-> s]
 Spr(f, c)        == [k |-> "s", frag |-> f, cond |-> c]
 
 \* the named fragments of the universe (queries files always define all of them)
-FragOn   == [FJ |-> "J", FI |-> "I", FA |-> "A", FA2 |-> "A", FU |-> "U", FD |-> "D", FInl |-> "J", FB |-> "B", FAfr |-> "A", FDo |-> "D"]
+FragOn   == [FJ |-> "J", FI |-> "I", FA |-> "A", FA2 |-> "A", FU |-> "U", FD |-> "D", FInl |-> "J", FB |-> "B", FAfr |-> "A", FDo |-> "D", FA3 |-> "A"]
 FragSels == [FJ   |-> <<Leaf("id"), Leaf("name")>>,
              FI   |-> <<Leaf("rank")>>,
              FA   |-> <<Leaf("a1"), Leaf("tags")>>,
@@ -70,7 +70,9 @@ FragSels == [FJ   |-> <<Leaf("id"), Leaf("name")>>,
              FAfr |-> <<Fld("friend", "-", "none", <<Leaf("id")>>)>>,
              \* two levels: a fragment that spreads FAfr inside a nested field (FAfr's abstract sub-field needs __typename in
              \* every document that reaches it, also when only a base class of a base class uses it)
-             FDo  |-> <<Fld("owner", "-", "none", <<Spr("FAfr", "none")>>)>>]
+             FDo  |-> <<Fld("owner", "-", "none", <<Spr("FAfr", "none")>>)>>,
+             \* a chain of three base classes (FA3 -> FA2 -> FA): spreading FA2 and FA3 side by side needs the right base order
+             FA3  |-> <<Spr("FA2", "none"), Leaf("rank")>>]
 FragNames == DOMAIN FragOn
 
 Overlaps(S, T) == Possible[S] \cap Possible[T] # {}
